@@ -9,6 +9,9 @@ CHECKS = {
  "C14": {
   "text": "Panic/allocation audit of footer location and directory parsing (Archive::open in reader mode and its callees): every overflow/bounds/division assert, file-derived allocation, unwrap/expect and file-bounded loop in the MIR must be discharged by a dominating guard (linear inequality over branch conditions), interval arithmetic or a reasoned table entry; every part range stored from the directory must be checked against the data region; every fallible read is propagated up to Decompressor::open. Holds for every truncation offset because the tail is treated as arbitrary bytes; no file is parsed.",
   "ref": "DESIGN.md 4/C14", "note": TB, "technique": "static analysis: panic-site enumeration over MIR with guard/interval discharge and result-discipline (error propagation) rules"},
+ "C15": {
+  "text": "Error discipline over the call graph: the set of functions that can reach a write/flush on the archive file is computed; buffering functions must be outside it; at every live call site of a writing function the Result must be propagated (never dropped, .ok()'d or only printed); finalize's Ok paths are dominated by flush_buffers then close; close/serialize flush after the footer; the CLI propagates the compressor API and main returns the Result; worker JoinHandles are joined and their inner Result propagated. Holds for every failing offset because no write result can be lost on any path; no I/O fault is injected.",
+  "ref": "DESIGN.md 4/C15", "note": TB, "technique": "static analysis: effect summaries over the call graph + result-fate (error propagation) dataflow + dominance on MIR"},
 }
 PENDING = "check not built yet in this session (design exists in DESIGN.md); will be claimed once its rules run"
 NOT_APPLICABLE = {
